@@ -181,45 +181,77 @@ fn big_blocks(seed: u64, report: &mut Report) {
         report.oracle_fail("format:big-blocks-backup-failed", case, "a backup of files of a few MiB did not succeed", json!(crate::compare::trunc(&r.result)));
         return;
     }
-    // every block: decompresses, and is stored under and named by the BLAKE2b hash of its content
+    let expect: BTreeMap<String, Vec<u8>> = files.iter().map(|(n, b)| (format!("/{n}"), b.clone())).collect();
+    for (sig, what) in raw_reader(&arch, 0, &expect) {
+        report.oracle_fail(&sig, case.clone(), "the independent reader of the raw archive files found a violation", what);
+    }
+}
+
+/// Independent reader working on the RAW files of an archive (no hex state): every block file decompresses and
+/// is stored under / named by the BLAKE2b hash of its content; every FILE entry recorded in version `band` has
+/// addresses inside readable blocks whose bytes are exactly `expect[apath]` (entries for paths not in `expect`
+/// are only checked for readable addresses).
+pub fn raw_reader(arch: &std::path::Path, band: u32, expect: &BTreeMap<String, Vec<u8>>) -> Vec<(String, Value)> {
+    let mut bad: Vec<(String, Value)> = Vec::new();
     let mut blocks: BTreeMap<String, Vec<u8>> = BTreeMap::new();
-    for sub in std::fs::read_dir(arch.join("d")).unwrap().flatten() {
-        for f in std::fs::read_dir(sub.path()).unwrap().flatten() {
-            let name = f.file_name().to_string_lossy().to_string();
-            let raw = std::fs::read(f.path()).unwrap();
-            match snap::raw::Decoder::new().decompress_vec(&raw) {
-                Err(e) => report.oracle_fail("format:block-undecodable", case.clone(), "a block file written by a successful backup does not decompress", json!({"block": name, "bytes_on_disk": raw.len(), "error": e.to_string()})),
-                Ok(content) => {
-                    if blake_hex(&content) != name || !name.starts_with(&sub.file_name().to_string_lossy().to_string()) {
-                        report.oracle_fail("format:block-misnamed", case.clone(), "a block is not named by / stored under the hash of its content", json!({"block": name}));
+    if let Ok(rd) = std::fs::read_dir(arch.join("d")) {
+        for sub in rd.flatten() {
+            for f in std::fs::read_dir(sub.path()).unwrap().flatten() {
+                let name = f.file_name().to_string_lossy().to_string();
+                let raw = std::fs::read(f.path()).unwrap();
+                if raw.is_empty() {
+                    continue; // zero-length leftover of a killed or failed write: never referenced (checked below)
+                }
+                match snap::raw::Decoder::new().decompress_vec(&raw) {
+                    Err(e) => bad.push(("format:block-undecodable".into(), json!({"block": name, "bytes_on_disk": raw.len(), "error": e.to_string()}))),
+                    Ok(content) => {
+                        if blake_hex(&content) != name || !name.starts_with(&sub.file_name().to_string_lossy().to_string()) {
+                            bad.push(("format:block-misnamed".into(), json!({"block": name})));
+                        }
+                        blocks.insert(name, content);
                     }
-                    blocks.insert(name, content);
                 }
             }
         }
     }
-    // every file entry: addresses inside their blocks, lengths summing to the size, content equal to the source
-    let hunk = arch.join("b0000/i/00000/000000000");
-    let Some(entries) = std::fs::read(&hunk).ok().and_then(|b| crate::absarch::decode_hunk(&b)) else {
-        report.oracle_fail("format:undecodable-hunk", case, "the index hunk of the big-blocks backup does not decode", json!(null));
-        return;
-    };
-    for e in entries.iter().filter(|e| crate::absarch::kind_char(e.kind) == 'f') {
-        let want = files.iter().find(|(n, _)| format!("/{n}") == e.apath).map(|(_, b)| b.clone()).unwrap_or_default();
-        let mut got: Vec<u8> = Vec::new();
-        let mut ok = true;
-        for a in &e.addrs {
-            match blocks.get(&a.hash) {
-                Some(c) if (a.start + a.len) as usize <= c.len() => got.extend_from_slice(&c[a.start as usize..(a.start + a.len) as usize]),
-                _ => ok = false,
+    let idx = arch.join(band_name(band)).join("i");
+    let mut hunks: Vec<std::path::PathBuf> = Vec::new();
+    if let Ok(rd) = std::fs::read_dir(&idx) {
+        for sub in rd.flatten() {
+            if let Ok(rd2) = std::fs::read_dir(sub.path()) {
+                hunks.extend(rd2.flatten().map(|f| f.path()));
             }
         }
-        if !ok {
-            report.oracle_fail("format:address-outside-block", case.clone(), "an address of a recorded file does not lie inside a readable block", json!({"apath": e.apath}));
-        } else if got != want {
-            report.oracle_fail("format:content-differs", case.clone(), "the bytes a recorded file's addresses select are not the file's content", json!({"apath": e.apath, "len": got.len(), "expected_len": want.len()}));
+    }
+    hunks.sort();
+    for h in hunks {
+        let bytes = std::fs::read(&h).unwrap_or_default();
+        if bytes.is_empty() {
+            continue;
+        }
+        let Some(entries) = crate::absarch::decode_hunk(&bytes) else {
+            bad.push(("format:undecodable-hunk".into(), json!({"hunk": h.to_string_lossy()})));
+            continue;
+        };
+        for e in entries.iter().filter(|e| crate::absarch::kind_char(e.kind) == 'f') {
+            let mut got: Vec<u8> = Vec::new();
+            let mut ok = true;
+            for a in &e.addrs {
+                match blocks.get(&a.hash) {
+                    Some(c) if (a.start + a.len) as usize <= c.len() => got.extend_from_slice(&c[a.start as usize..(a.start + a.len) as usize]),
+                    _ => ok = false,
+                }
+            }
+            if !ok {
+                bad.push(("format:address-outside-block".into(), json!({"apath": e.apath})));
+            } else if let Some(want) = expect.get(&e.apath) {
+                if &got != want {
+                    bad.push(("format:content-differs".into(), json!({"apath": e.apath, "len": got.len(), "expected_len": want.len()})));
+                }
+            }
         }
     }
+    bad
 }
 
 pub fn run(tier: &str, seed: u64, report: &mut Report) {
